@@ -19,6 +19,10 @@ def run(ctx: Context) -> None:
     ctx.rule('R20.3', "every error handler of nice_console_errors ends the process with a non-zero status; the generic handler exists; commands run inside it", floor=6)
     ctx.rule('R20.4', "tables agree: format writers = --format choices minus 'auto' = range of guess_format, each naming the library writer of that format; every public module of cli.commands exports a Command", floor=7)
     ctx.rule('R20.5', "handlers are thin: the library entry point receives the parsed options unmodified and its result is written by the library's own writer; NonIntersectingPoints becomes a CommandException", floor=9)
+    ctx.rule('R20.6', "a point outside the model is refused under 'error' wherever it is in the table: the refusal is decided by the number of misses, and the command hands the policy through (facts shared with C05 R05.2 / R05.3)", floor=10)
+    from . import c05 as _c05
+    from .common import share_obligations as _share
+    _share(ctx, _c05, {'R05.2', 'R05.3'}, 'R20.6')
     ctx.assume("argparse calls the `type=` callable on the raw argument text and turns ArgumentTypeError into exit status 2")
     ctx.assume("NOT decided: equality of output file content with the library result (I/O at run time)")
 
